@@ -243,6 +243,16 @@ def features(pem_path):
     """Features of a certificate as the C2PA profile sees them, from `openssl x509 -text` (independent of the SDK)."""
     if pem_path in _feat_cache:
         return _feat_cache[pem_path]
+    side = pem_path + ".features.json"
+    if not os.path.abspath(pem_path).startswith(os.path.abspath(common.BUILD) + os.sep):
+        side = os.path.join(ROOT, "features-" + hashlib.sha256(os.path.abspath(pem_path).encode()).hexdigest()[:20] + ".json")
+        os.makedirs(ROOT, exist_ok=True)
+    if os.path.exists(side) and os.path.getmtime(side) >= os.path.getmtime(pem_path):
+        try:
+            _feat_cache[pem_path] = json.load(open(side))
+            return _feat_cache[pem_path]
+        except Exception:
+            pass
     t = text(pem_path)
     f = {}
     f["version"] = int(re.search(r"Version:\s*(\d+)", t).group(1))
@@ -302,6 +312,12 @@ def features(pem_path):
     ku = next((e for e in exts if e["name"] == "X509v3 Key Usage"), None)
     f["ku"] = None if ku is None else [x.strip() for x in ku["value"].replace("\n", "").split(",") if x.strip()]
     _feat_cache[pem_path] = f
+    try:
+        with open(side + ".tmp", "w") as fh:
+            json.dump(f, fh)
+        os.replace(side + ".tmp", side)
+    except OSError:
+        pass
     return f
 
 
@@ -323,6 +339,10 @@ def openssl_verify(anchor_pems, ee_pem, chain_pems, attime=None):
         return _verify_cache[k]
     d = os.path.join(ROOT, "verify")
     os.makedirs(d, exist_ok=True)
+    memo = os.path.join(d, k[:32] + ".verdict")       # verdicts are a function of the inputs only: remembered across runs
+    if os.path.exists(memo):
+        _verify_cache[k] = open(memo).read().strip() == "1"
+        return _verify_cache[k]
     a, c, e = (os.path.join(d, f"{k[:20]}-{n}.pem") for n in "ace")
     open(a, "w").write("\n".join(anchor_pems))
     open(c, "w").write("\n".join(chain_pems))
@@ -336,4 +356,6 @@ def openssl_verify(anchor_pems, ee_pem, chain_pems, attime=None):
     for x in (a, c, e):
         os.unlink(x)
     _verify_cache[k] = ok
+    with open(memo, "w") as fh:
+        fh.write("1" if ok else "0")
     return ok
